@@ -302,7 +302,7 @@ def main(run, args):
                 failing.append({"what": "a re-joined member cannot follow the group", "script": sc["name"], "error": r.get("err")})
     mism = []
     coq_cases = 0
-    if proofs_ok and cases:
+    if model_ready(proofs_ok) and cases:
         text = ("From Coq Require Import NArith List Bool.\nFrom MlsV Require Import Join Pending.\nImport ListNotations.\nLocal Open Scope N_scope.\n"
                 "Fixpoint insert_sorted (x : N) (l : list N) : list N := match l with [] => [x] | y :: r => if x <=? y then x :: l else y :: insert_sorted x r end.\n"
                 "Definition sortN (l : list N) : list N := fold_right insert_sorted [] l.\n"
